@@ -4166,6 +4166,11 @@ class PyCdlib:
         if self._initialized:
             raise pycdlibexception.PyCdlibInvalidInput('This object already has an ISO; either close it or create a new object')
 
+        # Start from a clean slate; an earlier call that was refused half-way
+        # (an identifier that is too long, say) must not leave its settings
+        # behind.
+        self._initialize()
+
         if interchange_level < 1 or interchange_level > 4:
             raise pycdlibexception.PyCdlibInvalidInput('Invalid interchange level (must be between 1 and 4)')
 
